@@ -363,27 +363,35 @@ class MHistory:
                 self.dead.add(p)
                 ctx.violation(v.mechanism, v.message, v.witness,
                               case=dict(ops=d.ops[-40:], cycle=self.cycles, when=when))
-        if not startup and 'C03' in self.props and 'C03' not in self.dead:
-            # an operator's freeze that the master acknowledged (the event is gone) took effect: the record says frozen
-            # and the cycle assigned nothing new to the server (as long as nothing else spoke about the server since:
-            # no presence change, no later operator command naming it, still in the cell, not blacked out)
+        fprop = next((p_ for p_ in ('C08', 'C03') if p_ in self.props and p_ not in self.dead), None)
+        if not startup and fprop is not None:
+            # an operator's freeze that the master acknowledged (the event is gone) took effect and stays in effect: the
+            # record says frozen and no cycle assigns anything new to the server - as long as nothing else spoke about
+            # the server's state since: no presence change, no later operator command naming it other than a change of
+            # its capacity / traits / partition (a modified server is replaced in the model and takes its recorded state
+            # over), still in the cell, not blacked out
             for sname, (state, step, at) in sorted(getattr(d, 'state_requested', {}).items()):
-                if state != 'frozen' or step != d.step_no - 1 or sname not in d.Z['servers'] or sname not in d.node_clients \
+                if state != 'frozen' or step > d.step_no - 1 or sname not in d.Z['servers'] or sname not in d.node_clients \
                         or sname in d.lost or getattr(d, 'stale_presence', None):
                     continue
-                if any(op[0] != 'cycle' and sname in repr(op[1:]) for op in d.ops[at + 1:]):
+                later = [op for op in d.ops[at + 1:] if op[0] != 'cycle' and sname in repr(op[1:])]
+                if any(op[0] not in ('server_cap', 'server_traits', 'server_attrs') for op in later):
                     continue
                 if d.admin.exists(d.z.path.blackedout_server(sname)) or d.srv.children(d.z.EVENTS):
                     continue
                 ctx.count('freeze_requests_checked')
+                if later:
+                    ctx.count('freeze_requests_checked_after_the_frozen_server_was_modified')
                 recorded = (d.zkutils.get_default(d.admin, d.z.path.placement(sname)) or {}).get('state')
                 newly = sorted(p[0] for p in placement if p[3] == sname and p[1] != sname)
                 if recorded != 'frozen' or newly:
-                    self.dead.add('C03')
-                    ctx.violation('freeze-request-without-effect' + (':assigned-after-freeze' if newly else ''),
-                                  'the operator froze %s in this step and the master consumed the event; the server is recorded %r%s' % (
-                                      sname, recorded, ' and the cycle assigned %s to it' % newly if newly else ''),
+                    self.dead.add(fprop)
+                    ctx.violation('freeze-request-without-effect' + (':assigned-after-freeze' if newly else '') +
+                                  (':after-the-server-was-modified' if later else ''),
+                                  'the operator froze %s in step %d and the master consumed the event; at step %d the server is recorded %r%s' % (
+                                      sname, step, d.step_no, recorded, ' and the cycle assigned %s to it' % newly if newly else ''),
                                   case=dict(ops=d.ops[-40:], cycle=self.cycles))
+                    break
         st = getattr(d, 'stale_presence', None)
         if st is not None and not startup:
             # the cycle that follows a listing that was stale when the master processed it (C03: nothing is assigned to
